@@ -52,6 +52,23 @@ def random_scope(rng, n):
     specials = [0.0, -0.0, float("inf"), float("-inf"), 1.0, 1.0000000000000002, 5e-324, -5e-324]
     for c in range(n):
         k = rng.randrange(0, 40)
+        if c % 25 == 7:
+            # long lists (lengths around 256 / 512 / 1024, few distinct values or none repeated), probes at and beyond both ends and at
+            # runs of equal elements: whatever depends on the SIZE of the list or of a run
+            k = rng.choice([255, 256, 257, 258, 300, 511, 512, 513, 1024, 1025])
+            distinct = rng.choice([3, 40, k])
+            pool = sorted(rng.uniform(-10, 10) for _ in range(distinct))
+            l = sorted(rng.choice(pool) for _ in range(k)) if distinct < k else pool
+            x = rng.choice([l[-1], l[-1] + 1, l[0], l[0] - 1, rng.choice(pool), rng.choice(pool) + 1e-9, l[k // 2]])
+            yield l, x
+            continue
+        if c % 25 == 16:
+            # runs of exactly 7 / 8 / 9 / 16 / 17 equal elements inside a longer list, probed at the run's value and next to it
+            run = rng.choice([7, 8, 9, 15, 16, 17, 32, 33])
+            v = rng.choice([0.0, 1577836800.0, -3.5])
+            l = sorted([v - 2, v - 1] * rng.choice([0, 1, 2]) + [v] * run + [v + 1, v + 2][:rng.choice([0, 1, 2])])
+            yield l, rng.choice([v, v, v + 1, v - 1, v + 0.5])
+            continue
         if c % 3 == 2:
             # the index's use: epoch timestamps (large magnitude, microsecond spacing), probes right next to stored values
             base = rng.choice([0.0, 1.7e9, -8.5e9, 8.5e9, 1577836800.0])
